@@ -183,11 +183,13 @@ class Verifier(Engine):
             s.env["result"] = s.env["yielded"]
         else:
             s.env["result"] = sig.value if sig is not None and sig.value is not None else VNone()
+        # parameters in postconditions denote their values on entry (the function may rebind them)
+        for name, _ty in c.params:
+            if name in fr.init_state.env:
+                s.env[name] = fr.init_state.env[name]
         for i, en in enumerate(c.ensures):
             t = self.truth(s, self.ev1(en, s))
             self.oblige(s, t, "post", i, info={"case": fr.case_label}, assume_after=False)
-        for i, m in enumerate(getattr(c, "frame_checks", [])):
-            pass
 
     def check_exc_exit(self, fr, s, exc, node, why):
         c = fr.contract
